@@ -42,6 +42,11 @@ def one_run(res, seed, idx, cancel_at, phase, job_bias, pressure=None):
         orig_adv = w.bp.advance_block
 
         def advance_block(block):
+            if phase == 'initial_reorg' and state['phase_started'] is None and state.get('switched') \
+                    and next(b for b in gen.blocks if b.hex_hash == block.hex_hash).parent.hash != w.bp.state.tip:
+                # the block that reveals the reorganisation: the requests of this phase are injected
+                # from here on (first of all while this very job is still running / undelivered)
+                state['phase_started'] = w.loop.iterations
             orig_adv(block)
             if w.bp.reorg_count is None:
                 completed[0] = w.bp.state.height
@@ -109,11 +114,23 @@ def one_run(res, seed, idx, cancel_at, phase, job_bias, pressure=None):
         state = {'phase_started': None, 'requested': False}
 
         def script(loop):
+            if phase == 'initial_reorg' and not state.get('switched') and w.bp.state is not None \
+                    and w.bp.state.height >= 2:
+                # the daemon reorganises between two polls of the initial catch-up: the first batch is
+                # being advanced (nothing flushed yet); the next poll's first block will not connect
+                state['switched'] = True
+                chain = d.tip.chain()
+                # fork just below what the server has advanced so far (advanced, not flushed), and
+                # make the new branch the longer one
+                b = chain[w.bp.state.height - 1]
+                while b.height <= d.tip.height:
+                    b = gen.new_block(b, max_txs=3)
+                d.switch(b)
             if pressure and w.bp.state is not None and prng.random() < 0.12:
                 w.bp.force_flush_arg = {'hist': False, 'full': True}.get(pressure, prng.random() < 0.3)
                 info['pressure_events'] = info.get('pressure_events', 0) + 1
             # environment: once caught up, feed the phase's events
-            if w.caught_up_event.is_set() and state['phase_started'] is None:
+            if phase != 'initial_reorg' and w.caught_up_event.is_set() and state['phase_started'] is None:
                 state['phase_started'] = loop.iterations
                 if phase == 'caught_up':
                     d.extend(2, max_txs=3)
@@ -232,7 +249,7 @@ def run(tier, seed):
                 'iteration at which shutdown is requested); the request is injected at every scheduling point of the phase '
                 '(quick: a stride through them); worker jobs are gated at every storage effect so the request can land while '
                 'a flush or a block advance is mid-way; non-trivial = the request lands while a worker job is running or queued')
-    phases = ['initial', 'caught_up', 'reorg', 'forced_reorg']
+    phases = ['initial', 'initial_reorg', 'caught_up', 'reorg', 'forced_reorg']
     all_traces = []
     nchains = 6 if tier == 'quick' else 12
     for idx in range(nchains):
@@ -243,7 +260,7 @@ def run(tier, seed):
                 _f, info0 = one_run(res, seed, idx, None, phase, job_bias, pressure)
                 n = min(info0.get('iterations', 0), 400)
                 stride = max(1, n // (16 if tier == 'quick' else 60))
-                for k in range(0, n, stride):
+                for k in sorted(set(range(0, min(n, 6))) | set(range(0, n, stride))):
                     fails, info = one_run(res, seed, idx, k, phase, job_bias, pressure)
                     res.note_case(f'{idx},{phase},{job_bias},{k},{pressure}', nontrivial=True)
                     res.bump('cache_pressure_events', info.get('pressure_events', 0))
